@@ -23,7 +23,7 @@ PROFILES = {
     "C10": {"hooks": True, "exec_fail": 0.15, "ops": {"wake": 0.25, "check": 0.1}, "req": {}},
     # (with the default weights of the other commands the cumulated weights passed 1 before `ro` and the malformed messages
     # were reached: C11 never sent a read-only request — every weight is spelled out now)
-    "C11": {"recipes": {"singleton_set": 0.04, "options_observe": 0.08}, "ops": {"wake": 0.25},
+    "C11": {"recipes": {"singleton_set": 0.04, "options_observe": 0.08}, "ops": {"wake": 0.25}, "set_extra": True,
             "req": {"ssr": 0.16, "reload": 0.05, "incr": 0.08, "set": 0.2, "kill": 0.1, "signal": 0.1, "rm": 0.03, "add": 0.1, "quit": 0.01,
                     "ro": 0.13}},
     "C14": {"recipes": {"signal_veto": 0.05, "reap_veto": 0.05}, "hooks": True, "stubborn": 0.2, "ops": {"wake": 0.45},
@@ -48,6 +48,11 @@ ASSUMPTIONS = [
     "the random jitter of max_age (`randint(0, max_age_variance)`) is fixed to the least value the code asks for",
     "one external stimulus per atomic step, then the event loop runs to quiescence; timers fire in (deadline, creation) order",
     "graceful_timeout values are those for which the float loop `waited += 0.1` makes ceil(T/100ms) polls (checked by the generator)",
+    "reply bodies of `options` / `get` are compared on the options the model's watcher record carries (numprocesses, warmup_delay, "
+    "graceful_timeout, stop_signal, stop_children, priority, respawn, max_retry, max_age, singleton, on_demand, send_hup; times in "
+    "integer ms, `singleton` by truthiness), the other options of the real watcher (cmd, env, uid, …) are left out on both sides; "
+    "watchers added with options that are no constructor parameter (`retry_in`, dotted keys: they become extra option names, and "
+    "`get` on them raises AttributeError) and negative max_age are outside the domain; `dstats` gets constant figures (no psutil)",
     "watcher names over ASCII + Latin-1; glob patterns over * and ?; regex matching, on_demand sockets, stream redirection and "
     "reloadconfig are outside this layer",
 ]
